@@ -41,7 +41,10 @@ def check_history(job):
     MASK = {
         'D6': ('lookup by current name fails', 'name index holds a key of no contained table', 'non-validation exception',
                'rejected operation changed the state', 'lookup by current name finds another table',
-               'duplicate table name/alias accepted'),
+               'duplicate table name/alias accepted',
+               # consequences of the non-atomic delete_table (table popped and detached before the KeyError)
+               'iteration does not list exactly the contained tables in insertion order', 'positional lookup raised',
+               'positional lookup wrong', 'contained object does not point back to the database'),
         'D23': ('non-validation exception', 'rejected operation changed the state', 'column in the list does not point to its table',
                 'index in the list does not point to its table', 'column points to a table that does not list it',
                 'index points to a table that does not list it'),
